@@ -29,15 +29,19 @@ Pow256(n) == IF n = 1 THEN 256 ELSE IF n = 2 THEN 65536 ELSE IF n = 3 THEN 16777
 Matches(k) == /\ T.pkts[k].d = Ev.dir /\ T.pkts[k].sp = Ev.space /\ T.pkts[k].pnlen = Ev.pnlen
               /\ (IF Ev.pnlen < 4 THEN T.pkts[k].pn % Pow256(Ev.pnlen) ELSE T.pkts[k].pn) = Ev.trunc
 
+\* Which packet an event belongs to: the earliest not yet matched packet of that direction and space with that encoding.  Packets of ONE space
+\* and direction are matched in capture order; across spaces no order is demanded (an implementation may hold packets of one space back --
+\* e.g. 0-RTT packets until the ServerHello is known -- without touching what the properties state).
 Qpn == /\ Ev.ev = "qpn"
-       /\ \E k \in (cur + 1)..NP :
-            /\ Matches(k)
-            /\ \A j \in (cur + 1)..(k - 1) : ~Matches(j)            \* the earliest candidate: packets are dissected in capture order
+       /\ \E k \in 1..NP :
+            /\ k \notin cur /\ Matches(k)
+            /\ \A j \in 1..(k - 1) : ~(j \notin cur /\ Matches(j))
             /\ Ev.full = T.pkts[k].pn                               \* RFC 9000 A.3 result = the sender's packet number
             /\ Ev.largest = largest[Ev.dir][Ev.space]                \* largest so far, per space and direction
-            /\ Ev.largest_after = (IF Ev.full > Ev.largest THEN Ev.full ELSE Ev.largest)
-            /\ largest' = [largest EXCEPT ![Ev.dir][Ev.space] = Ev.largest_after]
-            /\ cur' = k
+            \* (WHEN the code raises its `largest` -- at once, or only after the packet was authenticated as RFC 9000 A.3 words it -- is not the
+            \*  property's subject: the value it USES for the next packet of the space is, and that is the line above at the next event)
+            /\ largest' = [largest EXCEPT ![Ev.dir][Ev.space] = IF Ev.full > Ev.largest THEN Ev.full ELSE Ev.largest]
+            /\ cur' = cur \cup {k}
        /\ UNCHANGED <<ecur, got, resets>>
 
 Qepoch == /\ Ev.ev = "qepoch"
@@ -69,11 +73,11 @@ Qcrypto == /\ Ev.ev = "qcrypto"
 Step == /\ l <= Len(T.events) /\ (Qpn \/ Qepoch \/ Qcrypto) /\ l' = l + 1 /\ UNCHANGED tid
 Done == l = Len(T.events) + 1
 Z2 == [d \in Dir |-> [s \in Spaces |-> 0]]
-Reset == l' = 1 /\ cur' = 0 /\ ecur' = [d \in Dir |-> 0] /\ largest' = Z2 /\ got' = G0 /\ resets' = 0
+Reset == l' = 1 /\ cur' = {} /\ ecur' = [d \in Dir |-> 0] /\ largest' = Z2 /\ got' = G0 /\ resets' = 0
 NextTrace == /\ (Done => TLCSet(1, TLCGet(1) \cup {T.id}))
              /\ TLCSet(2, [TLCGet(2) EXCEPT ![tid] = IF @ > l THEN @ ELSE l])
              /\ IF tid < N THEN tid' = tid + 1 /\ Reset ELSE UNCHANGED vars
-Init == /\ tid = 1 /\ l = 1 /\ cur = 0 /\ ecur = [d \in Dir |-> 0] /\ largest = Z2 /\ got = G0 /\ resets = 0
+Init == /\ tid = 1 /\ l = 1 /\ cur = {} /\ ecur = [d \in Dir |-> 0] /\ largest = Z2 /\ got = G0 /\ resets = 0
         /\ TLCSet(1, {}) /\ TLCSet(2, [i \in 1..N |-> 0])
 Next == Step \/ NextTrace
 Spec == Init /\ [][Next]_vars
